@@ -67,6 +67,20 @@ pub fn corpus() -> Vec<(String, Case)> {
         cfg.service = service.into();
         out.push((name.to_string(), Case { wire: WireReq::from_wire(&build(&p).wire), cfg, prov: ProvSpec::standard() }));
     }
+    // the same instant in other accepted renderings (whatever is initialised on first use must not depend on which
+    // rendering came first)
+    for (name, text) in [
+        ("date:extended", "2015-08-30T12:36:00Z"),
+        ("date:offset", "20150830T143600+0200"),
+        ("date:extended-offset-fraction", "2015-08-30T07:06:00.250-05:30"),
+        ("date:fraction-comma", "20150830T123600,5Z"),
+    ] {
+        for carrier in [Carrier::Header, Carrier::Query] {
+            let mut p = e2e::base_plan(carrier);
+            p.date_text = text.to_string();
+            out.push((format!("{}:{:?}", name, carrier), Case { wire: WireReq::from_wire(&build(&p).wire), cfg: Cfg::basic(now), prov: ProvSpec::standard() }));
+        }
+    }
     // large bodies of equal length and different content, validated one after the other (their buffers are freed
     // and very likely handed out again at the same address): what a buffer held before says nothing about it now
     for len in [1023usize, 1024, 8192, 200_000] {
@@ -796,7 +810,7 @@ pub fn run(ctx: &Ctx) -> Report {
     Report {
         stats: st,
         rule: format!(
-            "corpus of {} requests (one per stage of the documented order on each carrier, valid, wrong signature, with and without a session token; folded form, S3 + token, same credential under three tokens, five refusals that stop half-way through an element, six requests under server clocks 10 minutes apart incl. the edges of each window, two other server configurations, pairs of equally long bodies of 1023 .. 200 000 bytes with different content and one body under the other's signature); outcome = Ok payload digest (returned parts, body, principal) or error kind; fresh-state outcome of each element = its outcome when validated first in a fresh process. (1) every sequence of 1..{} validations in one process: each step equals its fresh-state outcome; (2) joint iteration orders of the crate's query and header maps exhausted (projection on <= 4 keys each) with identical canonical bytes and outcome, incl. the prefix rule whose error is raised inside a map iteration; (3) one fresh process per corpus element validated first{}; (4a) real threads under a controlled scheduler whose scheduling points are the crate's own log records and every provider event: 6 two-thread pairs ({}), 3 threads at preemption bound {}{}; (4b) 2-3 validation futures multiplexed on one thread with every order of polls (pending body / readiness / key future); built-in canaries (shared scratch buffer) must be caught by 4a and 4b on every run; plus a free-running barrier pass (sampling, supplementary). states = distinct outcomes / outcome vectors",
+            "corpus of {} requests (one per stage of the documented order on each carrier, valid, wrong signature, with and without a session token; folded form, S3 + token, same credential under three tokens, five refusals that stop half-way through an element, six requests under server clocks 10 minutes apart incl. the edges of each window, two other server configurations, four other renderings of the timestamp on both carriers, pairs of equally long bodies of 1023 .. 200 000 bytes with different content and one body under the other's signature); outcome = Ok payload digest (returned parts, body, principal) or error kind; fresh-state outcome of each element = its outcome when validated first in a fresh process. (1) every sequence of 1..{} validations in one process: each step equals its fresh-state outcome; (2) joint iteration orders of the crate's query and header maps exhausted (projection on <= 4 keys each) with identical canonical bytes and outcome, incl. the prefix rule whose error is raised inside a map iteration; (3) one fresh process per corpus element validated first{}; (4a) real threads under a controlled scheduler whose scheduling points are the crate's own log records and every provider event: 6 two-thread pairs ({}), 3 threads at preemption bound {}{}; (4b) 2-3 validation futures multiplexed on one thread with every order of polls (pending body / readiness / key future); built-in canaries (shared scratch buffer) must be caught by 4a and 4b on every run; plus a free-running barrier pass (sampling, supplementary). states = distinct outcomes / outcome vectors",
             n, l, if thorough { " (4 rounds)" } else { "" }, if thorough { "all interleavings" } else { "all schedules with <= 3 preemptions" }, if thorough { 3 } else { 2 }, if thorough { ", 4 threads at bound 2" } else { "" }
         ),
         bounds: json!({"corpus": n, "history_length": l}),
